@@ -23,11 +23,15 @@ type FnCase struct {
 	P       int    `json:"p"`       // zoo index of the prep payload
 	E       int    `json:"e"`       // zoo index of the exec payload
 	ErrRes  bool   `json:"err_result,omitempty"` // exec returns (NewErrorResult(err), nil) — Result style only
+	Retries int    `json:"retries,omitempty"`    // > 0: WithMaxRetries(Retries) is configured (exec never returns a Go error here, so it must run once)
+	FB      bool   `json:"fb,omitempty"`         // a fallback function is installed (must not be invoked)
 }
 
 var errFn = errors.New("exec-produced error state")
 
 type fnObs struct {
+	execCalls int
+	fbCalls   int
 	mu       sync.Mutex
 	notes    []finding
 	execSeen bool
@@ -53,6 +57,9 @@ func runFnCase(cs *FnCase) (fs []finding) {
 	prepRes := func(ctx context.Context, s *flyt.SharedStore) (flyt.Result, error) { return flyt.NewResult(p), nil }
 	checkExecArg := func(v any, isErr bool) {
 		o.execSeen = true
+		o.mu.Lock()
+		o.execCalls++
+		o.mu.Unlock()
 		if isErr {
 			add("exec-arg-error-state", "exec function received an error-state Result for a plain prep value")
 		}
@@ -121,6 +128,20 @@ func runFnCase(cs *FnCase) (fs []finding) {
 		return "next", nil
 	}
 
+	fbFn := func(v any, err error) (any, error) {
+		o.mu.Lock()
+		o.fbCalls++
+		o.mu.Unlock()
+		return "fallback-value", nil
+	}
+	finish := func(wantExec int) {
+		if o.execCalls != wantExec {
+			add("exec-repeated:"+cs.Context, "exec function ran %d times, want %d: it returned a nil error every time (retries configured: %d, returned an error Result: %v) [%s, %s]", o.execCalls, wantExec, cs.Retries, cs.ErrRes, style, cs.Build)
+		}
+		if o.fbCalls != 0 {
+			add("fallback-on-success:"+cs.Context, "fallback function was invoked %d times although exec never returned an error (error Result: %v, retries %d) [%s, %s]", o.fbCalls, cs.ErrRes, cs.Retries, style, cs.Build)
+		}
+	}
 	defer func() {
 		if pn := recover(); pn != nil {
 			fs = append(o.notes, finding{"panic:" + cs.Context, fmt.Sprint(pn)})
@@ -128,13 +149,42 @@ func runFnCase(cs *FnCase) (fs []finding) {
 	}()
 	if cs.Context == "batch" {
 		// batch item: the item payload reaches exec unchanged; exec's outcome reaches the slot unchanged
-		bn := flyt.NewBatchNode().WithPrepFunc(func(ctx context.Context, s *flyt.SharedStore) ([]flyt.Result, error) {
+		prepB := func(ctx context.Context, s *flyt.SharedStore) ([]flyt.Result, error) {
 			return []flyt.Result{flyt.NewResult(p), flyt.NewResult(p)}, nil
-		})
-		if cs.ExecR {
-			bn = bn.WithExecFunc(execRes)
-		} else {
-			bn = bn.WithExecFuncAny(execAny)
+		}
+		var bopts []any
+		if cs.Retries > 0 {
+			bopts = append(bopts, flyt.WithMaxRetries(cs.Retries))
+		}
+		if cs.FB {
+			bopts = append(bopts, flyt.WithExecFallbackFunc(fbFn))
+		}
+		var bn *flyt.BatchNodeBuilder
+		switch cs.Build {
+		case "options": // exec function through the constructor option
+			if cs.ExecR {
+				bopts = append(bopts, flyt.WithExecFunc(execRes))
+			} else {
+				bopts = append(bopts, flyt.WithExecFuncAny(execAny))
+			}
+			bn = flyt.NewBatchNode(bopts...).WithPrepFunc(prepB).WithBatchConcurrency(2)
+		case "builder":
+			bn = flyt.NewBatchNode(bopts...).WithPrepFunc(prepB)
+			if cs.ExecR {
+				bn = bn.WithExecFunc(execRes)
+			} else {
+				bn = bn.WithExecFuncAny(execAny)
+			}
+		default: // a function-style node's CustomNode composed into the batch node; plain prep returning []any
+			copts := append([]any(nil), bopts...)
+			copts = append(copts, flyt.WithPrepFuncAny(func(ctx context.Context, s *flyt.SharedStore) (any, error) { return []any{p, p}, nil }))
+			if cs.ExecR {
+				copts = append(copts, flyt.WithExecFunc(execRes))
+			} else {
+				copts = append(copts, flyt.WithExecFuncAny(execAny))
+			}
+			bn = flyt.NewBatchNode()
+			bn.CustomNode = flyt.NewNode(copts...).CustomNode
 		}
 		var slots []flyt.Result
 		bn = bn.WithPostFunc(func(ctx context.Context, s *flyt.SharedStore, items, results []flyt.Result) (flyt.Action, error) {
@@ -147,9 +197,6 @@ func runFnCase(cs *FnCase) (fs []finding) {
 			}
 			return "next", nil
 		})
-		if cs.Build == "options" {
-			bn = bn.WithBatchConcurrency(2)
-		}
 		if _, err := flyt.Run(context.Background(), bn, flyt.NewSharedStore()); err != nil {
 			add("batch-run-error", "batch run failed: %v", err)
 		}
@@ -172,6 +219,7 @@ func runFnCase(cs *FnCase) (fs []finding) {
 		if !o.execSeen {
 			add("exec-not-called:batch", "exec function was never called")
 		}
+		finish(2)
 		return o.notes
 	}
 	var node *flyt.NodeBuilder
@@ -193,9 +241,21 @@ func runFnCase(cs *FnCase) (fs []finding) {
 		} else {
 			opts = append(opts, flyt.WithPostFuncAny(postAny))
 		}
+		if cs.Retries > 0 {
+			opts = append(opts, flyt.WithMaxRetries(cs.Retries))
+		}
+		if cs.FB {
+			opts = append(opts, flyt.WithExecFallbackFunc(fbFn))
+		}
 		node = flyt.NewNode(opts...)
 	case "builder":
 		node = flyt.NewNode()
+		if cs.Retries > 0 {
+			node = node.WithMaxRetries(cs.Retries)
+		}
+		if cs.FB {
+			node = node.WithExecFallbackFunc(fbFn)
+		}
 		if cs.PrepR {
 			node = node.WithPrepFunc(prepRes)
 		} else {
@@ -218,7 +278,13 @@ func runFnCase(cs *FnCase) (fs []finding) {
 		} else {
 			opts = append(opts, flyt.WithExecFuncAny(execAny))
 		}
+		if cs.FB {
+			opts = append(opts, flyt.WithExecFallbackFunc(fbFn))
+		}
 		node = flyt.NewNode(opts...)
+		if cs.Retries > 0 {
+			node = node.WithMaxRetries(cs.Retries)
+		}
 		if cs.PrepR {
 			node = node.WithPrepFunc(prepRes)
 		} else {
@@ -249,6 +315,7 @@ func runFnCase(cs *FnCase) (fs []finding) {
 	if !o.execSeen || !o.postSeen {
 		add("phase-not-called:"+cs.Context, "exec called: %v, post called: %v", o.execSeen, o.postSeen)
 	}
+	finish(1)
 	return o.notes
 }
 
@@ -279,6 +346,11 @@ func runC17(c *Cfg) {
 					}
 					for p := 0; p < nz; p++ {
 						cases = append(cases, &FnCase{Family: "grid", PrepR: st&1 != 0, ExecR: st&2 != 0, PostR: st&4 != 0, Build: build, Context: ctx, P: p, E: (p*7 + 3) % nz, ErrRes: errRes})
+						if p%6 == 0 { // retries configured and/or a fallback installed: exec still runs once, nothing is stripped
+							for v := 1; v < 4; v++ {
+								cases = append(cases, &FnCase{Family: "grid-retries", PrepR: st&1 != 0, ExecR: st&2 != 0, PostR: st&4 != 0, Build: build, Context: ctx, P: p, E: (p*7 + 3) % nz, ErrRes: errRes, Retries: 3 * (v & 1), FB: v&2 != 0})
+							}
+						}
 					}
 				}
 			}
@@ -295,7 +367,7 @@ func runC17(c *Cfg) {
 		for _, f := range fs {
 			r.Violate("C17", "C17:"+f.key, f.detail, cs)
 		}
-		r.Nontrivial(fmt.Sprintf("%v%v%v %s %s %d %v", cs.PrepR, cs.ExecR, cs.PostR, cs.Build, cs.Context, cs.P, cs.ErrRes))
+		r.Nontrivial(fmt.Sprintf("%v%v%v %s %s %d %v %d %v", cs.PrepR, cs.ExecR, cs.PostR, cs.Build, cs.Context, cs.P, cs.ErrRes, cs.Retries, cs.FB))
 		if cs.ErrRes && cs.P == 0 && r.SampleWanted("grid") {
 			r.Sample("grid", cs)
 		}
